@@ -678,6 +678,30 @@ func ruleInterruptedWalkReportsIt(c *Check, rule string) {
 	}
 	walk := w.Walk
 	ff := fk("dag.Walker", "failFastTriggered")
+	// a helper that hands out the flag (read under the mutex, say)
+	returnsFlag := func(v ssa.Value) bool {
+		call, ok := v.(*ssa.Call)
+		if !ok {
+			return false
+		}
+		h := call.Call.StaticCallee()
+		if h == nil || len(h.Blocks) == 0 || !engine.InPackage(h, "dag") {
+			return false
+		}
+		n := 0
+		for _, r := range engine.Returns(h) {
+			if r.Block() == h.Recover || len(r.Results) != 1 {
+				continue
+			}
+			for _, o := range engine.Origins(r.Results[0]) {
+				if o == nil || !isLoadOfField(o, ff) {
+					return false
+				}
+				n++
+			}
+		}
+		return n > 0
+	}
 	allowed := engine.CutEdgesWhere(func(a engine.Atom) bool {
 		switch a.Op {
 		case "nil":
@@ -687,45 +711,99 @@ func ruleInterruptedWalkReportsIt(c *Check, rule string) {
 				}
 			}
 		case "true":
-			return isLoadOfField(a.V, ff)
+			return isLoadOfField(a.V, ff) || returnsFlag(a.V)
 		}
 		return false
 	})
-	// the places where a nil error is put into the result: a `return x, nil`, or (when results are spilled to
-	// cells because of a defer) the store of nil into the error cell
-	idx := engine.ErrResultIndex(walk.Signature)
+	// the places where a nil error is put into the result: a `return x, nil`, (when results are spilled to
+	// cells because of a defer) the store of nil into the error cell, the edge on which a nil constant enters
+	// the phi that is returned (`var err error; if …{ err = ctx.Err() }; return m, err`), or a nil-producing
+	// place of a walker helper whose result is returned
 	isNil := func(v ssa.Value) bool { k, ok := v.(*ssa.Const); return ok && k.Value == nil }
-	var nilSites []ssa.Instruction
-	for _, r := range engine.Returns(walk) {
-		if r.Block() == walk.Recover || idx < 0 || idx >= len(r.Results) {
-			continue
+	nSites := 0
+	var at ssa.Instruction
+	var produces func(fn *ssa.Function, depth int) bool
+	var valueMayBeUnjustifiedNil func(fn *ssa.Function, v ssa.Value, use ssa.Instruction, depth int) bool
+	reachable := func(fn *ssa.Function, in ssa.Instruction) bool {
+		r, _ := engine.PathExists(fn, nil, engine.IsInstr(in), engine.PathQuery{CutEdge: allowed, Shallow: true})
+		return r
+	}
+	valueMayBeUnjustifiedNil = func(fn *ssa.Function, v ssa.Value, use ssa.Instruction, depth int) bool {
+		switch x := v.(type) {
+		case *ssa.Const:
+			if x.Value == nil {
+				nSites++
+				if reachable(fn, use) {
+					at = use
+					return true
+				}
+			}
+			return false
+		case *ssa.Phi:
+			for i, e := range x.Edges {
+				pred := x.Block().Preds[i]
+				last := pred.Instrs[len(pred.Instrs)-1]
+				if isNil(e) {
+					nSites++
+					si := -1
+					for j, sc := range pred.Succs {
+						if sc == x.Block() {
+							si = j
+						}
+					}
+					if si >= 0 && !allowed(pred, si) && reachable(fn, last) && reachable(fn, use) {
+						at = last
+						return true
+					}
+					continue
+				}
+				if valueMayBeUnjustifiedNil(fn, e, last, depth) {
+					return true
+				}
+			}
+			return false
+		case *ssa.UnOp:
+			if x.Op == token.MUL {
+				sts, _ := engine.ReachingStores(x)
+				for _, st := range sts {
+					if valueMayBeUnjustifiedNil(fn, st.Val, st, depth) {
+						return true
+					}
+				}
+			}
+			return false
+		case *ssa.MakeInterface, *ssa.ChangeInterface:
+			return false // a concrete error value
 		}
-		v := r.Results[idx]
-		if isNil(v) {
-			nilSites = append(nilSites, r)
-			continue
-		}
-		if ld, ok := v.(*ssa.UnOp); ok && ld.Op == token.MUL {
-			sts, _ := engine.ReachingStores(ld)
-			for _, st := range sts {
-				if isNil(st.Val) {
-					nilSites = append(nilSites, st)
+		if call, ri := engine.CallOf(v); call != nil {
+			if cc, ok := call.(*ssa.Call); ok {
+				if h := cc.Call.StaticCallee(); h != nil && len(h.Blocks) > 0 && engine.InPackage(h, "dag") && depth < 3 && ri == engine.ErrResultIndex(h.Signature) {
+					if reachable(fn, cc) && produces(h, depth+1) {
+						return true
+					}
 				}
 			}
 		}
+		return false
 	}
-	reach := false
-	var at ssa.Instruction
-	for _, site := range nilSites {
-		if r, _ := engine.PathExists(walk, nil, engine.IsInstr(site), engine.PathQuery{CutEdge: allowed, Shallow: true}); r {
-			reach, at = true, site
+	produces = func(fn *ssa.Function, depth int) bool {
+		idx := engine.ErrResultIndex(fn.Signature)
+		for _, r := range engine.Returns(fn) {
+			if r.Block() == fn.Recover || idx < 0 || idx >= len(r.Results) {
+				continue
+			}
+			if valueMayBeUnjustifiedNil(fn, r.Results[idx], r, depth) {
+				return true
+			}
 		}
+		return false
 	}
+	reach := produces(walk, 0)
 	pos := c.P.Pos(walk.Pos())
 	if at != nil {
 		pos = c.P.InstrPos(at)
 	}
-	if len(nilSites) == 0 {
+	if nSites == 0 {
 		c.Unknown(rule, "interrupted-walk-reports-it/"+c.P.FuncName(walk), "the walk never returns a nil error", pos)
 		return
 	}
